@@ -23,9 +23,9 @@ EXTENDS AdfSem, AdfSyntax, ServerShapes, Integers, Json, IOUtils, TLC
 
 Rec == ndJsonDeserialize(IOEnv.TRACE)
 
-VARIABLES l, codes, lastpw, prevprobs, actors, race, quiet, asked, granted, acct
+VARIABLES l, codes, lastpw, prevprobs, actors, race, quiet, asked, granted, acct, acctSolves
 
-vars == <<l, codes, lastpw, prevprobs, actors, race, quiet, asked, granted, acct>>
+vars == <<l, codes, lastpw, prevprobs, actors, race, quiet, asked, granted, acct, acctSolves>>
 
 RangeOf(sq) == { sq[i] : i \in DOMAIN sq }
 Report(ok, id, prop, what) == ok \/ PrintT(<<"MISMATCH", l, id, prop, what, race>>)
@@ -167,11 +167,11 @@ CheckHttp(r) ==
        Report(<<r.p, r.args.name, r.args.strategy>> \in granted, r.id, "C16", <<"solve-refused-although-never-granted", r.args.strategy>>)
   \* C16: "the models eventually stored and returned": once nothing is pending, every solve this person was granted for this
   \* problem has left a result (or an error) - unless the problem was deleted or the account renamed / deleted meanwhile
-  /\ (quiet /\ "final" \in DOMAIN r) =>
-       \A i \in DOMAIN shown : \A a \in asked :
-         (a[1] = r.p /\ a[2] = shown[i].name /\ a[3] # "Parse") =>
-           Report(\E k \in DOMAIN shown[i].per : shown[i].per[k].strategy = a[3] /\ shown[i].per[k].type # "None",
-                  r.id, "C16", <<"accepted-solve-result-never-stored", a[3]>>)
+  /\ (quiet /\ "final" \in DOMAIN r /\ race = "none" /\ r.me \in DOMAIN acctSolves) =>
+       \A i \in DOMAIN shown : \A a \in acctSolves[r.me] :
+         (a[1] = shown[i].name) =>
+           Report(\E k \in DOMAIN shown[i].per : shown[i].per[k].strategy = a[2] /\ shown[i].per[k].type # "None",
+                  r.id, "C16", <<"accepted-solve-result-never-stored", a[2]>>)
   \* conformance with the service model (drift only): the commands this request sent to the database are exactly the
   \* footprint of its handler in Server.tla - same commands, same collections, same FILTER KEYS - and every task result is
   \* written with update_one {name, username}
@@ -228,14 +228,14 @@ CheckDb(r) ==
 
 \* ------------------------------------------------------------------ the trace machine
 Init == /\ l = 1 /\ codes = [q \in 1..3 |-> {}] /\ lastpw = [x \in {} |-> ""] /\ prevprobs = <<>>
-        /\ actors = {} /\ race = "none" /\ quiet = TRUE /\ asked = {} /\ granted = {} /\ acct = [x \in {} |-> {}]
+        /\ actors = {} /\ race = "none" /\ quiet = TRUE /\ asked = {} /\ granted = {} /\ acct = [x \in {} |-> {}] /\ acctSolves = [x \in {} |-> {}]
 
 Next ==
   /\ l <= Len(Rec) /\ l' = l + 1
   /\ LET r == Rec[l] IN
      CASE r.kind = "reset" ->
             /\ codes' = [q \in 1..3 |-> {}] /\ lastpw' = [x \in {} |-> ""] /\ prevprobs' = <<>> /\ actors' = {}
-            /\ race' = (IF "race" \in DOMAIN r THEN r.race ELSE "none") /\ quiet' = TRUE /\ asked' = {} /\ granted' = {} /\ acct' = [x \in {} |-> {}]
+            /\ race' = (IF "race" \in DOMAIN r THEN r.race ELSE "none") /\ quiet' = TRUE /\ asked' = {} /\ granted' = {} /\ acct' = [x \in {} |-> {}] /\ acctSolves' = [x \in {} |-> {}]
        [] r.kind = "http" ->
             /\ CheckHttp(r) \in BOOLEAN
             /\ codes' = IF r.op = "add" /\ r.p # 0 THEN [codes EXCEPT ![r.p] = @ \cup {r.args.code}] ELSE codes
@@ -244,15 +244,19 @@ Next ==
             \* which tasks did this person ever start (accepted add -> Parse, accepted solve -> that strategy)
             /\ asked' = IF r.status = 200 /\ r.op = "solve" THEN asked \cup {<<r.p, r.args.name, r.args.strategy>>}
                          ELSE IF r.status = 200 /\ r.op = "add" THEN asked \cup {<<r.p, r.args.name, "Parse">>}
-                         \* a deleted problem takes its grants along; a rename / account deletion may lose pending results (not judged)
-                         ELSE IF r.op = "delete" THEN { a \in asked : ~(a[1] = r.p /\ a[2] = r.args.name) }
-                         ELSE IF r.op \in {"update", "delete_account"} THEN { a \in asked : a[1] # r.p }
                          ELSE asked
-            \* grants survive a rename (the documents and their results move along), not the deletion of the problem / account
-            /\ granted' = IF r.status = 200 /\ r.op = "solve" THEN granted \cup {<<r.p, r.args.name, r.args.strategy>>}
-                           ELSE IF r.op = "delete" THEN { a \in granted : ~(a[1] = r.p /\ a[2] = r.args.name) }
-                           ELSE IF r.op = "delete_account" THEN { a \in granted : a[1] # r.p }
-                           ELSE granted
+            \* every solve this person was ever granted (a person may use several accounts with same-named problems: kept as a superset)
+            /\ granted' = IF r.status = 200 /\ r.op = "solve" THEN granted \cup {<<r.p, r.args.name, r.args.strategy>>} ELSE granted
+            \* the solves granted to each ACCOUNT (followed like acct); a deleted problem takes its grants along, a rename or an
+            \* account deletion may lose pending results and ends the bookkeeping for that account
+            /\ acctSolves' = LET known == r.me \notin {"-", "<temp>"}
+                                  cur == IF r.me \in DOMAIN acctSolves THEN acctSolves[r.me] ELSE {}
+                                  Without(n) == [x \in DOMAIN acctSolves \ {n} |-> acctSolves[x]] IN
+                              IF r.status # 200 \/ ~known THEN acctSolves
+                              ELSE CASE r.op = "solve" -> (r.me :> (cur \cup {<<r.args.name, r.args.strategy>>})) @@ acctSolves
+                                     [] r.op = "delete" -> (r.me :> { a \in cur : a[1] # r.args.name }) @@ acctSolves
+                                     [] r.op \in {"update", "delete_account"} -> Without(r.me)
+                                     [] OTHER -> acctSolves
             \* the problems of each ACCOUNT as the observer knows them (accounts are followed through renames by the cookie's name
             \* before the request, r.me; temporary accounts have no known name and are not followed)
             /\ acct' = LET known == r.me \notin {"-", "<temp>"}
@@ -268,8 +272,8 @@ Next ==
        [] r.kind = "db" ->
             /\ CheckDb(r) \in BOOLEAN
             /\ prevprobs' = r.dump.probs /\ actors' = {} /\ quiet' = (r.pending_writes = 0)
-            /\ UNCHANGED <<codes, lastpw, race, asked, granted, acct>>
-       [] OTHER -> UNCHANGED <<codes, lastpw, prevprobs, actors, race, quiet, asked, granted, acct>>
+            /\ UNCHANGED <<codes, lastpw, race, asked, granted, acct, acctSolves>>
+       [] OTHER -> UNCHANGED <<codes, lastpw, prevprobs, actors, race, quiet, asked, granted, acct, acctSolves>>
 
 Spec == Init /\ [][Next]_vars
 Consumed == (TLCGet("stats").diameter - 1 = Len(Rec))
